@@ -15,7 +15,7 @@ from concurrent.futures import ThreadPoolExecutor
 
 VERIF = os.path.dirname(os.path.abspath(__file__))
 # changes that are (also) the business of another property's check
-ALSO = {"C14-5": ["C14"], "C13-5": ["C13", "C11"]}
+ALSO = {"C14-5": ["C14"], "C13-5": ["C13", "C11"], "C02-7": ["C02", "C14"], "C17-9": ["C17", "C12"], "C04-10": ["C04", "C12"], "C08-9": ["C08", "C17"], "C13-7": ["C13", "C12"], "C12-8": ["C12", "C13"]}
 
 
 def sh(cmd, cwd=None, env=None, timeout=3600):
